@@ -6,6 +6,8 @@ use fharness::sx::{self, Sx};
 use fend_core::{Context, CustomUnitAttribute, DecimalSeparatorStyle};
 
 fn rng_fn() -> u32 { 0x9e37_79b9 }
+fn rng_zero() -> u32 { 0 }
+fn rng_max() -> u32 { u32::MAX }
 
 /// cfg = (sep fc rng rates custom)  each 0/1(/2)
 fn make_ctx(cfg: &Sx) -> Option<Context> {
@@ -14,7 +16,8 @@ fn make_ctx(cfg: &Sx) -> Option<Context> {
     let mut c = Context::new();
     if v[0] == 1 { c.set_decimal_separator_style(DecimalSeparatorStyle::Comma); }
     if v[1] == 1 { c.use_coulomb_and_farad(); }
-    if v[2] == 1 { c.set_random_u32_fn(rng_fn); }
+    // random source: absent / a mid-range constant / the two extreme draws
+    match v[2] { 1 => c.set_random_u32_fn(rng_fn), 2 => c.set_random_u32_fn(rng_zero), 3 => c.set_random_u32_fn(rng_max), _ => {} }
     match v[3] {
         1 => c.set_exchange_rate_handler_v1(|cur: &str| -> Result<f64, Box<dyn std::error::Error + Send + Sync + 'static>> {
             Ok(match cur { "EUR" | "USD" => 1.0, "GBP" => 0.9, "NZD" => 1.5, "JPY" => 149.9, _ => return Err("unknown currency".into()) })
